@@ -1500,36 +1500,52 @@ func (x *expander) expandDefers(body *ast.BlockStmt, ftype *ast.FuncType) bool {
 			})
 		}
 		if hoist {
-			var lhs []ast.Expr
-			var uses []ast.Expr
-			mk := func(t types.Type) {
+			// evaluate, before the deferred calls, each result that has an effect or reads something they write
+			results := append([]ast.Expr(nil), r.Results...)
+			for i, e := range r.Results {
+				needs := containsCall(e)
+				ast.Inspect(e, func(n ast.Node) bool {
+					if id, isID := n.(*ast.Ident); isID && written[x.info.Uses[id]] {
+						needs = true
+					}
+					return true
+				})
+				if !needs {
+					continue
+				}
+				t := x.info.TypeOf(e)
+				if t == nil {
+					continue
+				}
+				if tup, isTuple := t.(*types.Tuple); isTuple {
+					// return f(): all results come from one call
+					var lhs, uses []ast.Expr
+					for j := 0; j < tup.Len(); j++ {
+						x.seq++
+						v := types.NewVar(r.Pos(), x.top.Pkg.Types, fmt.Sprintf("ret%d", x.seq), tup.At(j).Type())
+						def := &ast.Ident{NamePos: r.Pos(), Name: v.Name()}
+						x.info.Defs[def] = v
+						use := &ast.Ident{NamePos: r.Pos(), Name: v.Name()}
+						x.info.Uses[use] = v
+						lhs, uses = append(lhs, def), append(uses, use)
+					}
+					out = append(out, &ast.AssignStmt{Lhs: lhs, TokPos: r.Pos(), Tok: token.DEFINE, Rhs: []ast.Expr{e}})
+					results = uses
+					break
+				}
+				if bt, isBasic := t.(*types.Basic); isBasic && bt.Info()&types.IsUntyped != 0 {
+					continue
+				}
 				x.seq++
 				v := types.NewVar(r.Pos(), x.top.Pkg.Types, fmt.Sprintf("ret%d", x.seq), t)
 				def := &ast.Ident{NamePos: r.Pos(), Name: v.Name()}
 				x.info.Defs[def] = v
 				use := &ast.Ident{NamePos: r.Pos(), Name: v.Name()}
 				x.info.Uses[use] = v
-				lhs = append(lhs, def)
-				uses = append(uses, use)
+				out = append(out, &ast.AssignStmt{Lhs: []ast.Expr{def}, TokPos: r.Pos(), Tok: token.DEFINE, Rhs: []ast.Expr{e}})
+				results[i] = use
 			}
-			for _, e := range r.Results {
-				switch t := x.info.TypeOf(e).(type) {
-				case *types.Tuple:
-					for i := 0; i < t.Len(); i++ {
-						mk(t.At(i).Type())
-					}
-				case nil:
-					return []ast.Stmt{r}
-				default:
-					// untyped nil and constants keep the declared result type
-					if b, isBasic := t.(*types.Basic); isBasic && b.Info()&types.IsUntyped != 0 {
-						return []ast.Stmt{r}
-					}
-					mk(t)
-				}
-			}
-			out = append(out, &ast.AssignStmt{Lhs: lhs, TokPos: r.Pos(), Tok: token.DEFINE, Rhs: r.Results})
-			r = &ast.ReturnStmt{Return: r.Return, Results: uses}
+			r = &ast.ReturnStmt{Return: r.Return, Results: results}
 		}
 		for i := len(dl) - 1; i >= 0; i-- {
 			lit := dl[i].lit
